@@ -144,17 +144,7 @@ func (x *Exec) applyCallInner(st *State, site ssa.Instruction, c *ssa.CallCommon
 		return true
 	}
 	// dynamic call of a function value
-	fname := "dyn:" + strings.TrimPrefix(c.Value.Name(), "t")
-	if u, ok := c.Value.(*ssa.UnOp); ok && u.Op == token.MUL {
-		if fa, ok := u.X.(*ssa.FieldAddr); ok {
-			stT := derefType(fa.X.Type())
-			fname = structName(stT) + "." + stT.Underlying().(*types.Struct).Field(fa.Field).Name()
-		} else if a, ok := u.X.(*ssa.Alloc); ok {
-			fname = a.Comment
-		} else if fv, ok := u.X.(*ssa.FreeVar); ok {
-			fname = fv.Name()
-		}
-	}
+	fname := x.dynName(c.Value)
 	x.countCall(st, fname, args, c)
 	if x.full {
 		x.oblige(st, "nil", fmt.Sprintf("#%d", x.ordinal("nil", site)), Neq(x.term(st, fnv, c.Value.Type()), Zero), site.Pos(), "non-nil function value "+fname)
@@ -169,11 +159,15 @@ func (x *Exec) applyCallInner(st *State, site ssa.Instruction, c *ssa.CallCommon
 		x.yield(st)
 		return true
 	}
+	if fnv.Fn == nil && fnv.T != nil && st.clos != nil {
+		if cv, ok := st.clos[fnv.T.Key()]; ok {
+			fnv = cv
+		}
+	}
 	if fnv.Fn != nil && fnv.Fn.Blocks != nil && fnInModule(fnv.Fn) {
 		// closure created in this very function and called directly
 		if ct := x.P.Contracts[fnv.Fn]; ct != nil {
-			x.applyContract(st, site, fnv.Fn, ct, args, res)
-			x.yield(st)
+			x.applyContractClosure(st, site, fnv.Fn, ct, args, res, &fnv)
 			return true
 		}
 		x.havoc(st, x.P.ModSet(fnv.Fn))
@@ -205,6 +199,22 @@ func (x *Exec) callEnv(st *State, old *State, callee *ssa.Function, names []stri
 }
 
 func (x *Exec) applyContract(st *State, site ssa.Instruction, callee *ssa.Function, ct *Contract, args []Val, res ssa.Value) {
+	x.applyContractClosure(st, site, callee, ct, args, res, nil)
+}
+
+// bindFreeVars binds the callee's captured variables to the current contents of the cells the
+// closure was created over.
+func (x *Exec) bindFreeVars(st *State, env *Env, callee *ssa.Function, binds []Val, into map[string]specBinding) {
+	for i, fv := range callee.FreeVars {
+		if i >= len(binds) || binds[i].Addr == nil {
+			continue
+		}
+		t := derefType(fv.Type())
+		into[fv.Name()] = specBinding{Val{T: x.load(st, binds[i].Addr)}, t}
+	}
+}
+
+func (x *Exec) applyContractClosure(st *State, site ssa.Instruction, callee *ssa.Function, ct *Contract, args []Val, res ssa.Value, closure *Val) {
 	var names []string
 	var tys []types.Type
 	for _, p := range callee.Params {
@@ -215,6 +225,9 @@ func (x *Exec) applyContract(st *State, site ssa.Instruction, callee *ssa.Functi
 	x.nscope++
 	x.callScope = fmt.Sprintf("#cs%d", x.nscope)
 	env := x.callEnv(st, st, callee, names, tys, args)
+	if closure != nil {
+		x.bindFreeVars(st, env, callee, closure.Binds, env.binds)
+	}
 	for i, rq := range ct.Requires {
 		t := env.eval(rq.Expr)
 		if env.err != nil {
@@ -235,9 +248,21 @@ func (x *Exec) applyContract(st *State, site ssa.Instruction, callee *ssa.Functi
 	} else {
 		x.havoc(st, x.P.ModSet(callee))
 	}
+	if closure != nil {
+		// captured variables the closure writes get new values
+		x.yield(st)
+	}
 	rv := x.freshResult(st, callee.Signature, callee.Name())
 	x.setResult(st, res, rv)
 	env2 := x.callEnv(st, old, callee, names, tys, args)
+	if closure != nil {
+		x.bindFreeVars(st, env2, callee, closure.Binds, env2.binds)
+		env2.oldBinds = map[string]specBinding{}
+		for k, v := range env2.binds {
+			env2.oldBinds[k] = v
+		}
+		x.bindFreeVars(old, env2, callee, closure.Binds, env2.oldBinds)
+	}
 	var results []Val
 	if rv.Tup != nil {
 		results = rv.Tup
@@ -246,6 +271,9 @@ func (x *Exec) applyContract(st *State, site ssa.Instruction, callee *ssa.Functi
 	}
 	env2.bindResults(callee, results)
 	for _, en := range ct.Ensures {
+		if len(en.Props) > 0 && x.prop != "" && !hasProp(en.Props, x.prop) {
+			continue // clause belongs to other properties: neither proved nor used in this run
+		}
 		t := env2.eval(en.Expr)
 		if env2.err != nil {
 			x.specError(en.Expr, env2.err)
@@ -374,7 +402,7 @@ func (x *Exec) havocDeclared(st *State, pre *State, callee *ssa.Function, ct *Co
 				continue
 			}
 		}
-		if e.Kind == "call" && len(e.Args) == 1 && (e.Name == "sent" || e.Name == "closed" || e.Name == "recvd") {
+		if e.Kind == "call" && len(e.Args) == 1 && (e.Name == "sent" || e.Name == "closed" || e.Name == "recvd" || e.Name == "written") {
 			pe := *env
 			pe.st = pre
 			ch := pe.eval(e.Args[0])
@@ -383,6 +411,10 @@ func (x *Exec) havocDeclared(st *State, pre *State, callee *ssa.Function, ct *Co
 				continue
 			}
 			switch e.Name {
+			case "written":
+				nv := x.freshVar("written", SStr)
+				x.strFacts(st, nv)
+				x.bufSet(st, ch.T, nv)
 			case "sent":
 				arr := st.heapArr(ghSent, heapSorts[ghSent])
 				nv := x.freshVar("sent", SInt)
@@ -673,7 +705,7 @@ func (x *Exec) checkFrame(st *State, r *ssa.Return) {
 				}
 			}
 		}
-		if e.Kind == "call" && len(e.Args) == 1 && (e.Name == "sent" || e.Name == "closed" || e.Name == "recvd") {
+		if e.Kind == "call" && len(e.Args) == 1 && (e.Name == "sent" || e.Name == "closed" || e.Name == "recvd" || e.Name == "written") {
 			env := &Env{x: x, st: x.entry, old: x.entry, fn: x.fn, binds: map[string]specBinding{}, cells: true, mode: "pre", pkg: fnPkg(x.fn)}
 			for n, v := range x.params {
 				env.binds[n] = specBinding{v, x.paramType(n)}
@@ -796,4 +828,40 @@ func (x *Exec) checkTypeInvs(st *State, r *ssa.Return) {
 			x.oblige(st.clone(), "typeinv", ":"+ti.Type, g.T, a.Pos(), "type invariant of "+ti.Type+" established by the allocating function: "+ti.Clause.Text)
 		}
 	}
+}
+
+// dynName names a function value by where it is read from: Struct.field for (elements of)
+// function-valued fields, <function>.<variable> for locals, captured variables and parameters.
+func (x *Exec) dynName(v ssa.Value) string { return dynNameOf(x.fn, v) }
+
+func dynNameOf(fn *ssa.Function, v ssa.Value) string {
+	switch u := v.(type) {
+	case *ssa.UnOp:
+		if u.Op == token.MUL {
+			var a ssa.Value = u.X
+			if ia, ok := a.(*ssa.IndexAddr); ok {
+				a = ia.X
+			}
+			switch b := a.(type) {
+			case *ssa.FieldAddr:
+				stT := derefType(b.X.Type())
+				return structName(stT) + "." + stT.Underlying().(*types.Struct).Field(b.Field).Name()
+			case *ssa.Alloc:
+				return relName(fn) + "." + b.Comment
+			case *ssa.FreeVar:
+				return relName(fn) + "." + b.Name()
+			}
+		}
+	case *ssa.Parameter:
+		return relName(fn) + "." + u.Name()
+	case *ssa.Field:
+		stT := u.X.Type()
+		return structName(stT) + "." + stT.Underlying().(*types.Struct).Field(u.Field).Name()
+	case *ssa.Index:
+		if f, ok := u.X.(*ssa.Field); ok {
+			stT := f.X.Type()
+			return structName(stT) + "." + stT.Underlying().(*types.Struct).Field(f.Field).Name()
+		}
+	}
+	return "dyn:" + v.Name()
 }
